@@ -86,6 +86,7 @@ func menuZSets() [][][]byte {
 	return [][][]byte{bs("ZADD", "z1", "1", "a"), bs("ZADD", "z1", "2", "b", "1", "c"), bs("ZADD", "z1", "2", "a"), bs("ZADD", "z1", "1", "b", "0.5", "d"), bs("ZADD", "z1", "-1", "e", "1.5", "a"),
 		bs("ZREM", "z1", "a"), bs("ZREM", "z1", "a", "b", "zz", "a"), bs("ZSCORE", "z1", "a"), bs("ZSCORE", "z1", "zz"), bs("ZSCORE", "z2", "a"), bs("ZINCRBY", "z1", "2", "a"), bs("ZINCRBY", "z1", "-0.5", "n"),
 		bs("ZCARD", "z1"), bs("ZCARD", "z2"), bs("ZRANGE", "z1", "0", "-1"), bs("ZRANGE", "z1", "0", "-1", "WITHSCORES"), bs("ZRANGE", "z1", "1", "2"), bs("ZRANGE", "z1", "-2", "-1"), bs("ZRANGE", "z1", "2", "1"),
+		bs("ZRANGE", "z1", "0", "-1", "REV"), bs("ZRANGE", "z1", "0", "0", "REV"), bs("ZRANGE", "z1", "1", "2", "rev", "WITHSCORES"), bs("ZRANGE", "z1", "-2", "-1", "REV"),
 		bs("ZREVRANGE", "z1", "0", "0"), bs("ZREVRANGE", "z1", "0", "-1", "WITHSCORES"), bs("ZREVRANGE", "z1", "1", "5"), bs("ZRANGEBYSCORE", "z1", "-inf", "+inf"), bs("ZRANGEBYSCORE", "z1", "1", "2"),
 		bs("ZRANGEBYSCORE", "z1", "(1", "2"), bs("ZRANGEBYSCORE", "z1", "1", "(2", "WITHSCORES"), bs("ZRANGEBYSCORE", "z1", "-inf", "+inf", "LIMIT", "1", "1"), bs("ZRANGEBYSCORE", "z1", "0", "5", "LIMIT", "5", "2"),
 		bs("ZRANGEBYSCORE", "z1", "0", "5", "LIMIT", "0", "-1"), bs("ZREVRANGEBYSCORE", "z1", "2", "1"), bs("ZREVRANGEBYSCORE", "z1", "+inf", "-inf", "WITHSCORES"), bs("ZREVRANGEBYSCORE", "z1", "(2", "(1"),
